@@ -128,9 +128,13 @@ impl ActTask for Act {
                     task.set_state(TaskState::Completed);
                 }
 
-                if let Some(next) = &task.node.next().upgrade() {
-                    ctx.sched_task(next);
-                    return Ok(true);
+                // an act that stays open (it waits for its sub-process) is followed
+                // by the next act only when it is closed
+                if task.state().is_completed() {
+                    if let Some(next) = &task.node.next().upgrade() {
+                        ctx.sched_task(next);
+                        return Ok(true);
+                    }
                 }
             }
         } else if state.is_skip() || state.is_success() {
